@@ -13,6 +13,7 @@ PATTERN = {
   "init_slot": [...], "init_ret": [...]            some slot / the return entry of the scenario's *initial* description matches
                                                    (for later passes whose cause has already been destroyed by an earlier one)
   "corrupt_before": true               the description the step starts from is already outside the vocabulary
+  "after_earlier_failure": true        an earlier step of the same scenario already failed a clause (reported there)
   "ret":     [present, typ, dbase, dstop, dann, def]   the return entry of the description matches
   "no_params": true                    the description has no parameters
   "replay":  {...}                     one concrete failing scenario
@@ -59,7 +60,52 @@ def _slots(feat):
     return [c["s"] for c in feat.get("comps", []) if "s" in c]
 
 
+CHAIN_ALIAS = {
+    "Chain.Def": ("DefaultKept", "DefaultFill"), "Chain.Typ": ("TypKept",), "Chain.Prose": ("ProseKept.base", "ProseKept.ann"),
+    "Chain.NamePresent": ("NamePresent",), "Chain.Summary": ("SummaryKept",), "Chain.NamesOrder": ("NamesOrder",),
+    "Chain.NoExtraNames": ("NoExtraNames",),
+    "Chain.Ret": ("RetKept.present", "RetKept.typ", "RetKept.def", "RetKept.base", "RetKept.ann"),
+}
+
+
+def chain_matches(p, feat):
+    """C05 chain clauses compare with the *original* description: a hop-level finding explains a chain failure when one of
+    the kinds on the path is a kind the finding is about, the clause is the chain counterpart of one of its clauses, and its
+    slot / return conditions hold for the original description.  Outcome, step and context conditions do not transfer."""
+    if p.get("after_earlier_failure"):
+        return bool(feat.get("prior_fail"))
+    if p.get("corrupt_before"):
+        return False
+    if feat["cl"] not in p["clauses"] and not any(c in p["clauses"] for c in CHAIN_ALIAS.get(feat["cl"], ())):
+        return False
+    k = p.get("when", {}).get("k")
+    if k is not None:
+        ks = k if isinstance(k, list) else [k]
+        if not any(x in ks for x in feat.get("path", [])):
+            return False
+    if "slot" in p:
+        if "s" in feat:
+            if not micro_match(p["slot"], feat["s"]):
+                return False
+        elif not any(micro_match(p["slot"], s) for s in _slots(feat)):
+            return False
+    for key in ("any_slot", "any_slot2", "init_slot"):
+        if key in p and not any(micro_match(p[key], s) for s in _slots(feat)):
+            return False
+    for key in ("ret", "init_ret"):
+        if key in p:
+            r = next((c["r"] for c in feat.get("comps", []) if "r" in c), None)
+            cur = feat.get("ret")
+            if not ((r is not None and micro_match(p[key], r[1:])) or (cur is not None and micro_match(p[key], cur[1:]))):
+                return False
+    if p.get("no_params") and feat.get("n", 1) != 0:
+        return False
+    return True
+
+
 def pattern_matches(p, feat):
+    if str(feat.get("cl", "")).startswith("Chain."):
+        return chain_matches(p, feat)
     if feat.get("cl") not in p["clauses"]:
         return False
     if "obs" in p and not any(json.dumps(o, sort_keys=True) == json.dumps(feat.get("obs"), sort_keys=True) for o in p["obs"]):
@@ -92,6 +138,8 @@ def pattern_matches(p, feat):
     if p.get("no_params") and feat.get("n", 1) != 0:
         return False
     if p.get("corrupt_before") and not _corrupt_before(feat):
+        return False
+    if p.get("after_earlier_failure") and not feat.get("prior_fail"):
         return False
     return True
 
